@@ -358,12 +358,6 @@ Section Sound.
 
   Definition AT (l : list token) (st : pst) : Prop := st = mkst l /\ valid l.
 
-  Lemma pull_last : match last with ITok _ => pull [last] = Ok (tEnd, [last]) | _ => opost (fun _ => False) (pull [last]) end.
-  Proof.
-    destruct Hlast as [->|H]; [reflexivity|].
-    destruct last; [exfalso; eapply H; reflexivity|exact I|exact I].
-  Qed.
-
   Lemma pull_tail r : opost (fun tr => fst tr = hd tEnd r /\ snd tr = map ITok (tl r) ++ [last] /\
                                        (last = ITok tEnd \/ r <> []))
                             (pull (map ITok r ++ [last])).
@@ -764,8 +758,8 @@ Section Sound.
     Proof.
       intros Hv. unfold primary, select_array, select_object, unexpected_curr. cbv zeta. go.
       all: split; [|noident; eauto with gram].
-      all: first [ solve [eauto 8 with gram]
-                 | eapply rK_E; [eassumption|]; solve [eauto 8 with gram] ].
+      all: first [ match goal with H : rK _ _ |- _ => eapply rK_E; [exact H|]; solve [eauto 6 with gram] end
+                 | solve [eauto 6 with gram] ].
     Qed.
 
     Lemma cont_step_post node p l : valid l -> opost (CS l) (cont_step rec f node p (mkst l)).
@@ -852,5 +846,444 @@ Proof.
   rewrite E in H. destruct H as [-> H]. exists toks. split; [exact El|exact H].
 Qed.
 
-Print Assumptions parser_sound.
+(* ================================================================== *)
+(* Sanity: the grammar is not vacuous                                  *)
+(* ================================================================== *)
+Definition starter_t (k : ttype) : bool :=
+  atom_t k || unary_t k ||
+  match k with
+  | TOpenParen | TOpenSqBrace | TOpenBrace | TArrayWildcard | TFlatten | TFilter | TLet => true
+  | _ => false
+  end.
+
+(* every sentence is non-empty and starts with a token that can start an expression *)
+Lemma gE_first l : gE l -> exists t r, l = t :: r /\ starter_t (ttyp t) = true.
+Proof.
+  induction 1.
+  - exists t, []. split; [reflexivity|]. unfold starter_t. rewrite H. reflexivity.
+  - eexists _, _. split; [reflexivity|]. rewrite H. reflexivity.
+  - inversion H; subst. eexists _, _. split; [reflexivity|]. rewrite H0. reflexivity.
+  - inversion H; subst. eexists _, _. split; [reflexivity|]. rewrite H0. reflexivity.
+  - inversion H; subst. eexists _, _. split; [reflexivity|]. rewrite H0. reflexivity.
+  - inversion H; subst; (eexists _, _; split; [reflexivity|]);
+      match goal with H : ttyp ?t = _ |- context [ttyp ?t] => rewrite H; reflexivity end.
+  - eexists _, _. split; [reflexivity|]. rewrite H. reflexivity.
+  - eexists _, _. split; [reflexivity|]. unfold starter_t. rewrite H, orb_true_r. reflexivity.
+  - destruct IHgE1 as (t & r & -> & Ht). eexists _, _. split; [reflexivity|exact Ht].
+  - destruct IHgE as (t & r & -> & Ht). eexists _, _. split; [reflexivity|exact Ht].
+  - destruct IHgE as (t & r & -> & Ht). eexists _, _. split; [reflexivity|exact Ht].
+Qed.
+
+Corollary gE_nonempty : ~ gE [].
+Proof. intros H. apply gE_first in H. destruct H as (t & r & H & _). discriminate. Qed.
+
+(* ================================================================== *)
+(* An executable recogniser for the grammar                            *)
+(* ================================================================== *)
+(* Recursive descent over the left-factored form
+     E ::= U* P S* ( B E )?
+   of the grammar above; every function returns the unread rest. *)
+
+Definition obind {A B} (o : option A) (k : A -> option B) : option B :=
+  match o with Some a => k a | None => None end.
+
+(* the first token has type k *)
+Definition is_t (k : ttype) (l : list token) : bool :=
+  match l with t :: _ => is (ttyp t) k | [] => false end.
+Definition sp_tok (k : ttype) (l : list token) : option (list token) :=
+  match l with t :: r => if is (ttyp t) k then Some r else None | [] => None end.
+Definition sp_optnum (l : list token) : list token :=
+  match sp_tok TIntegerLiteral l with Some r => r | None => l end.
+
+(* [number] ":" [number] [ ":" [number] ] "]" *)
+Definition sp_slice (l : list token) : option (list token) :=
+  obind (sp_tok TColon (sp_optnum l)) (fun l2 =>
+    let l3 := sp_optnum l2 in
+    match sp_tok TCloseSqBrace l3 with
+    | Some r => Some r
+    | None => obind (sp_tok TColon l3) (fun l4 => sp_tok TCloseSqBrace (sp_optnum l4))
+    end).
+(* after "[": number "]" or a slice *)
+Definition sp_idx (l : list token) : option (list token) :=
+  match obind (sp_tok TIntegerLiteral l) (sp_tok TCloseSqBrace) with
+  | Some r => Some r
+  | None => sp_slice l
+  end.
+
+Inductive smode :=
+| ME      (* expression *)
+| MK      (* S* ( B E )? *)
+| MList   (* expression *( "," expression ) "]" *)
+| MHash   (* keyval-expr *( "," keyval-expr ) "}" *)
+| MArgs   (* function-arg *( "," function-arg ) ")" *)
+| MBinds. (* variable-binding *( "," variable-binding ) "in" *)
+
+(* the token after an item of a comma-separated list: "," continues, the closing token ends *)
+Definition sp_sep (close : ttype) (again : list token -> option (list token)) (l : list token)
+  : option (list token) :=
+  match l with
+  | c :: r => if is (ttyp c) TComma then again r else if is (ttyp c) close then Some r else None
+  | [] => None
+  end.
+
+Fixpoint sp (fuel : nat) (m : smode) (l : list token) : option (list token) :=
+  match fuel with
+  | O => None
+  | S f =>
+    (* "(" [args] ")" then the continuation *)
+    let call := fun r =>
+      obind (sp_tok TOpenParen r) (fun r2 =>
+        match sp_tok TCloseParen r2 with
+        | Some r3 => sp f MK r3
+        | None => obind (sp f MArgs r2) (sp f MK)
+        end) in
+    match m with
+    | ME =>
+      match l with
+      | [] => None
+      | t :: r =>
+        if unary_t (ttyp t) then sp f ME r
+        else if is (ttyp t) TUnquotedIdentifier && is_t TOpenParen r then call r
+        else if atom_t (ttyp t) then sp f MK r
+        else match ttyp t with
+        | TOpenParen => obind (obind (sp f ME r) (sp_tok TCloseParen)) (sp f MK)
+        | TOpenSqBrace =>
+          if is_t TIntegerLiteral r || is_t TColon r then obind (sp_idx r) (sp f MK)
+          else obind (sp f MList r) (sp f MK)
+        | TOpenBrace => obind (sp f MHash r) (sp f MK)
+        | TArrayWildcard | TFlatten => sp f MK r
+        | TFilter => obind (obind (sp f ME r) (sp_tok TCloseSqBrace)) (sp f MK)
+        | TLet => obind (sp f MBinds r) (sp f ME)
+        | _ => None
+        end
+      end
+    | MK =>
+      match l with
+      | [] => Some l
+      | t :: r =>
+        if binary_t (ttyp t) then sp f ME r
+        else match ttyp t with
+        | TDot =>
+          match r with
+          | x :: r2 =>
+            if is (ttyp x) TUnquotedIdentifier && is_t TOpenParen r2 then call r2
+            else if ident_t (ttyp x) then sp f MK r2
+            else match ttyp x with
+            | TArrayWildcard => sp f MK r2
+            | TOpenSqBrace => obind (sp f MList r2) (sp f MK)
+            | TOpenBrace => obind (sp f MHash r2) (sp f MK)
+            | _ => None
+            end
+          | [] => None
+          end
+        | TObjectWildcard | TArrayWildcard | TFlatten => sp f MK r
+        | TFilter => obind (obind (sp f ME r) (sp_tok TCloseSqBrace)) (sp f MK)
+        | TOpenSqBrace => obind (sp_idx r) (sp f MK)
+        | _ => Some l
+        end
+      end
+    | MList => obind (sp f ME l) (sp_sep TCloseSqBrace (sp f MList))
+    | MHash =>
+      match l with
+      | k :: c :: r =>
+        if ident_t (ttyp k) && is (ttyp c) TColon
+        then obind (sp f ME r) (sp_sep TCloseBrace (sp f MHash))
+        else None
+      | _ => None
+      end
+    | MArgs =>
+      obind (sp f ME (match sp_tok TExpression l with Some r => r | None => l end))
+            (sp_sep TCloseParen (sp f MArgs))
+    | MBinds =>
+      match l with
+      | v :: a :: r =>
+        if is (ttyp v) TVariable && is (ttyp a) TAssign
+        then obind (sp f ME r) (sp_sep TIn (sp f MBinds))
+        else None
+      | _ => None
+      end
+    end
+  end.
+
+Definition spec_fuel (l : list token) : nat := (4 * length l + 8)%nat.
+Definition spec_accepts (l : list token) : bool :=
+  match sp (spec_fuel l) ME l with Some [] => true | _ => false end.
+
+(* ---- the recogniser only accepts sentences of the grammar ---- *)
+Definition spost (Q : list token -> Prop) (o : option (list token)) : Prop :=
+  match o with Some l' => Q l' | None => True end.
+
+Lemma sp_tok_some k l r : sp_tok k l = Some r -> exists t, l = t :: r /\ ttyp t = k.
+Proof.
+  destruct l as [|t l]; cbn; [discriminate|].
+  destruct (is (ttyp t) k) eqn:E; [|discriminate]. intros H; inversion H; subst.
+  apply is_true in E. eauto.
+Qed.
+
+Lemma is_t_true k l : is_t k l = true -> exists t r, l = t :: r /\ ttyp t = k.
+Proof. destruct l as [|t r]; cbn; [discriminate|]. intros E. apply is_true in E. eauto. Qed.
+
+Lemma sp_optnum_R l : R gOptNum l (sp_optnum l).
+Proof.
+  unfold sp_optnum. destruct (sp_tok TIntegerLiteral l) eqn:E.
+  - apply sp_tok_some in E. destruct E as (t & -> & Ht). apply rOptNum_some, Ht.
+  - apply rOptNum_none.
+Qed.
+
+Lemma sp_slice_ok l l' : sp_slice l = Some l' -> exists c, R gSlice l (c :: l') /\ ttyp c = TCloseSqBrace.
+Proof.
+  unfold sp_slice. pose proof (sp_optnum_R l) as H1.
+  destruct (sp_tok TColon (sp_optnum l)) as [l2|] eqn:E1; [|discriminate]. cbn [obind].
+  apply sp_tok_some in E1. destruct E1 as (c1 & E1 & Hc1). rewrite E1 in H1.
+  pose proof (sp_optnum_R l2) as H2.
+  destruct (sp_tok TCloseSqBrace (sp_optnum l2)) as [r|] eqn:E2.
+  - intros H; inversion H; subst. apply sp_tok_some in E2. destruct E2 as (c & E2 & Hc).
+    rewrite E2 in H2. exists c. split; [eapply rSlice_2; eassumption|assumption].
+  - destruct (sp_tok TColon (sp_optnum l2)) as [l4|] eqn:E3; [|discriminate]. cbn [obind].
+    apply sp_tok_some in E3. destruct E3 as (c2 & E3 & Hc2). rewrite E3 in H2.
+    pose proof (sp_optnum_R l4) as H3. intros E4.
+    apply sp_tok_some in E4. destruct E4 as (c & E4 & Hc). rewrite E4 in H3.
+    exists c. split; [eapply rSlice_3; eassumption|assumption].
+Qed.
+
+Lemma sp_idx_ok l l' : sp_idx l = Some l' -> IDX l l'.
+Proof.
+  unfold sp_idx. intros H o Ho.
+  destruct (obind (sp_tok TIntegerLiteral l) (sp_tok TCloseSqBrace)) as [r|] eqn:E.
+  - inversion H; subst.
+    destruct (sp_tok TIntegerLiteral l) as [l1|] eqn:E1; [|discriminate]. cbn [obind] in E.
+    apply sp_tok_some in E1. destruct E1 as (n & -> & Hn).
+    apply sp_tok_some in E. destruct E as (c & -> & Hc). apply rBracket_index; assumption.
+  - apply sp_slice_ok in H. destruct H as (c & H1 & H2). eapply rBracket_slice; eassumption.
+Qed.
+
+Definition SPEC (m : smode) (l l' : list token) : Prop :=
+  match m with
+  | ME => R gE l l'
+  | MK => rK l l'
+  | MList => LST l l'
+  | MHash => HSH l l'
+  | MArgs => ARG l l'
+  | MBinds => BND l l'
+  end.
+
+Lemma rCall_noargs f o c l :
+  ttyp f = TUnquotedIdentifier -> ttyp o = TOpenParen -> ttyp c = TCloseParen -> R gCall (f :: o :: c :: l) l.
+Proof.
+  intros. exists [f; o; c]. split; [reflexivity|].
+  apply (gCall_intro f o [] c); try assumption. apply gArgs_none.
+Qed.
+Lemma rCall_args f o l l' :
+  ttyp f = TUnquotedIdentifier -> ttyp o = TOpenParen -> ARG l l' -> R gCall (f :: o :: l) l'.
+Proof. intros H1 H2 (c & H3 & H4). eapply rCall_intro; eassumption. Qed.
+
+Lemma spost_sep close again (Q : list token -> Prop) l :
+  (forall c r, l = c :: r -> ttyp c = TComma -> spost Q (again r)) ->
+  (forall c r, l = c :: r -> ttyp c = close -> Q r) ->
+  spost Q (sp_sep close again l).
+Proof.
+  intros H1 H2. unfold sp_sep. destruct l as [|c r]; [exact I|].
+  destruct (is (ttyp c) TComma) eqn:E1; [apply is_true in E1; eapply H1; eauto|].
+  destruct (is (ttyp c) close) eqn:E2; [apply is_true in E2; cbn; eapply H2; eauto|exact I].
+Qed.
+
+Lemma spost_obind (P Q : list token -> Prop) o k :
+  spost P o -> (forall a, P a -> spost Q (k a)) -> spost Q (obind o k).
+Proof. destruct o; cbn; auto. Qed.
+
+Lemma spost_mono (P Q : list token -> Prop) o : spost P o -> (forall a, P a -> Q a) -> spost Q o.
+Proof. destruct o; cbn; auto. Qed.
+
+Lemma spost_tok k (Q : list token -> Prop) l :
+  (forall t r, l = t :: r -> ttyp t = k -> Q r) -> spost Q (sp_tok k l).
+Proof.
+  intros H. destruct (sp_tok k l) eqn:E; [|exact I]. apply sp_tok_some in E.
+  destruct E as (t & -> & Ht). cbn. eapply H; eauto.
+Qed.
+
+Lemma spost_obind_tok k (Q : list token -> Prop) l cont :
+  (forall t r, l = t :: r -> ttyp t = k -> spost Q (cont r)) -> spost Q (obind (sp_tok k l) cont).
+Proof.
+  intros H. destruct (sp_tok k l) eqn:E; [|exact I]. apply sp_tok_some in E.
+  destruct E as (t & -> & Ht). cbn. eapply H; eauto.
+Qed.
+Lemma spost_match_tok k (Q : list token -> Prop) l A B :
+  (forall t r, l = t :: r -> ttyp t = k -> spost Q (A r)) -> spost Q B ->
+  spost Q (match sp_tok k l with Some r => A r | None => B end).
+Proof.
+  intros H HB. destruct (sp_tok k l) eqn:E; [|exact HB]. apply sp_tok_some in E.
+  destruct E as (t & -> & Ht). eapply H; eauto.
+Qed.
+
+Section SpLevel.
+  Variable f : nat.
+  Hypothesis IH : forall m l, spost (SPEC m l) (sp f m l).
+
+  (* S* ( B E )? after a primary *)
+  Lemma k_after (l0 l : list token) : R gE l0 l -> spost (R gE l0) (sp f MK l).
+  Proof.
+    intros H. eapply spost_mono; [apply (IH MK)|]. cbn. intros a Ha. eapply rK_E; eassumption.
+  Qed.
+  Lemma k_after_k (l0 l : list token) : rK l0 l -> spost (rK l0) (sp f MK l).
+  Proof.
+    intros H. eapply spost_mono; [apply (IH MK)|]. cbn. intros a Ha. eapply rK_trans; eassumption.
+  Qed.
+
+  Lemma call_ok t r :
+    ttyp t = TUnquotedIdentifier ->
+    spost (fun l' => exists l1, R gCall (t :: r) l1 /\ rK l1 l')
+      (obind (sp_tok TOpenParen r) (fun r2 =>
+         match sp_tok TCloseParen r2 with
+         | Some r3 => sp f MK r3
+         | None => obind (sp f MArgs r2) (sp f MK)
+         end)).
+  Proof.
+    intros Ht. apply spost_obind_tok. intros o r2 -> Ho. apply spost_match_tok.
+    - intros c r3 -> Hc. eapply spost_mono; [apply (IH MK)|]. intros a Ha.
+      exists r3. split; [apply rCall_noargs; assumption|exact Ha].
+    - eapply spost_obind; [apply (IH MArgs)|]. intros r3 Ha. cbn in Ha.
+      eapply spost_mono; [apply (IH MK)|]. intros a Hk.
+      exists r3. split; [apply rCall_args; assumption|exact Hk].
+  Qed.
+
+  (* expression, closing token, continuation *)
+  Lemma enclosed_ok (r : list token) k (G : list token -> Prop) :
+    (forall c r2, R gE r (c :: r2) -> ttyp c = k -> G r2) ->
+    spost G (obind (sp f ME r) (sp_tok k)).
+  Proof.
+    intros H. eapply spost_obind; [apply (IH ME)|]. intros a Ha. cbn in Ha.
+    apply spost_tok. intros c r2 -> Hc. eapply H; eassumption.
+  Qed.
+
+  Lemma sp_step m l : spost (SPEC m l) (sp (S f) m l).
+  Proof.
+    cbn [sp]. destruct m; cbn [SPEC].
+    - (* ME *)
+      destruct l as [|t r]; [exact I|].
+      destruct (unary_t (ttyp t)) eqn:Eu.
+      { eapply spost_mono; [apply (IH ME)|]. intros a Ha. apply rE_unary; assumption. }
+      destruct (is (ttyp t) TUnquotedIdentifier && is_t TOpenParen r) eqn:Ec.
+      { apply andb_prop in Ec. destruct Ec as [Ec _]. apply is_true in Ec.
+        eapply spost_mono; [apply (call_ok t r Ec)|]. intros a (l1 & H1 & H2).
+        eapply rK_E; [exact H2|apply rE_call, H1]. }
+      destruct (atom_t (ttyp t)) eqn:Ea.
+      { apply k_after, rE_atom, Ea. }
+      destruct (ttyp t) eqn:Et; try exact I.
+      + eapply spost_obind; [apply (IH MHash)|]. intros a Ha.
+        apply k_after, rE_hash, HSH_use; assumption.
+      + eapply spost_obind with (P := R gE (t :: r)); [|intros; apply k_after; assumption].
+        apply (enclosed_ok r). intros c r2 H1 H2. eapply rE_paren; eassumption.
+      + destruct (is_t TIntegerLiteral r || is_t TColon r).
+        * destruct (sp_idx r) eqn:E; [|exact I]. cbn [obind]. apply sp_idx_ok in E.
+          apply k_after, rE_bracket, E, Et.
+        * eapply spost_obind; [apply (IH MList)|]. intros a Ha.
+          apply k_after, rE_list, LST_use; assumption.
+      + apply k_after, rE_bracket, rBracket_star, Et.
+      + eapply spost_obind with (P := R gE (t :: r)); [|intros; apply k_after; assumption].
+        apply (enclosed_ok r). intros c r2 H1 H2. eapply rE_bracket, rBracket_filter; eassumption.
+      + apply k_after, rE_bracket, rBracket_flatten, Et.
+      + eapply spost_obind; [apply (IH MBinds)|]. intros a (i & H1 & H2).
+        eapply spost_mono; [apply (IH ME)|]. intros b Hb. eapply rE_let; eassumption.
+    - (* MK *)
+      destruct l as [|t r]; [apply rK_nil|].
+      destruct (binary_t (ttyp t)) eqn:Eb.
+      { eapply spost_mono; [apply (IH ME)|]. intros a Ha. eapply rK_bin; [assumption|exact Ha|apply rK_nil]. }
+      destruct (ttyp t) eqn:Et; try apply rK_nil.
+      + destruct (sp_idx r) eqn:E; [|exact I]. cbn [obind]. apply sp_idx_ok in E.
+        apply k_after_k. eapply rK_br; [apply E, Et|apply rK_nil].
+      + (* [*] *) apply k_after_k. eapply rK_br; [apply rBracket_star, Et|apply rK_nil].
+      + (* . *)
+        destruct r as [|x r2]; [exact I|].
+        destruct (is (ttyp x) TUnquotedIdentifier && is_t TOpenParen r2) eqn:Ec.
+        { apply andb_prop in Ec. destruct Ec as [Ec _]. apply is_true in Ec.
+          eapply spost_mono; [apply (call_ok x r2 Ec)|]. intros a (l1 & H1 & H2).
+          eapply rK_sub; [apply rSub_call; eassumption|exact H2]. }
+        destruct (ident_t (ttyp x)) eqn:Ei.
+        { apply k_after_k. eapply rK_sub; [apply rSub_ident; assumption|apply rK_nil]. }
+        destruct (ttyp x) eqn:Ex; try exact I.
+        * eapply spost_obind; [apply (IH MHash)|]. intros a Ha.
+          apply k_after_k. eapply rK_sub; [apply rSub_hash, HSH_use; eassumption|apply rK_nil].
+        * eapply spost_obind; [apply (IH MList)|]. intros a Ha.
+          apply k_after_k. eapply rK_sub; [apply rSub_list, LST_use; eassumption|apply rK_nil].
+        * apply k_after_k. eapply rK_sub; [apply rSub_list_star; assumption|apply rK_nil].
+      + (* [? *)
+        eapply spost_obind with (P := rK (t :: r)); [|intros; apply k_after_k; assumption].
+        apply (enclosed_ok r). intros c r2 H1 H2.
+        eapply rK_br; [eapply rBracket_filter; eassumption|apply rK_nil].
+      + apply k_after_k. eapply rK_br; [apply rBracket_flatten, Et|apply rK_nil].
+      + apply k_after_k. eapply rK_sub; [apply rSub_star, Et|apply rK_nil].
+    - (* MList *)
+      eapply spost_obind; [apply (IH ME)|]. intros a Ha. cbn in Ha. apply spost_sep.
+      + intros c r -> Hc. eapply spost_mono; [apply (IH MList)|]. intros b Hb.
+        eapply LST_cons; eassumption.
+      + intros c r -> Hc. eapply LST_one; eassumption.
+    - (* MHash *)
+      destruct l as [|k [|c r]]; try exact I.
+      destruct (ident_t (ttyp k) && is (ttyp c) TColon) eqn:E; [|exact I].
+      apply andb_prop in E. destruct E as [Ek Ec]. apply is_true in Ec.
+      eapply spost_obind; [apply (IH ME)|]. intros a Ha. cbn in Ha. apply spost_sep.
+      + intros e r2 -> He. eapply spost_mono; [apply (IH MHash)|]. intros b Hb.
+        eapply HSH_cons; eassumption.
+      + intros e r2 -> He. eapply HSH_one; eassumption.
+    - (* MArgs *)
+      assert (HA : forall a, R gE (match sp_tok TExpression l with Some r => r | None => l end) a ->
+                             R gArg l a).
+      { intros a Ha. destruct (sp_tok TExpression l) eqn:E.
+        - apply sp_tok_some in E. destruct E as (t & -> & Ht). apply rArg_ref; assumption.
+        - apply rArg_expr, Ha. }
+      eapply spost_obind; [apply (IH ME)|]. intros a Ha. cbn in Ha. apply HA in Ha. apply spost_sep.
+      + intros c r -> Hc. eapply spost_mono; [apply (IH MArgs)|]. intros b Hb.
+        eapply ARG_cons; eassumption.
+      + intros c r -> Hc. eapply ARG_one; eassumption.
+    - (* MBinds *)
+      destruct l as [|v [|a r]]; try exact I.
+      destruct (is (ttyp v) TVariable && is (ttyp a) TAssign) eqn:E; [|exact I].
+      apply andb_prop in E. destruct E as [Ev Ea]. apply is_true in Ev. apply is_true in Ea.
+      eapply spost_obind; [apply (IH ME)|]. intros x Hx. cbn in Hx. apply spost_sep.
+      + intros e r2 -> He. eapply spost_mono; [apply (IH MBinds)|]. intros b Hb.
+        eapply BND_cons; eassumption.
+      + intros e r2 -> He. eapply BND_one; eassumption.
+  Qed.
+End SpLevel.
+
+Lemma sp_sound : forall fuel m l, spost (SPEC m l) (sp fuel m l).
+Proof. induction fuel as [|f IH]; intros m l; [exact I|]. apply sp_step, IH. Qed.
+
+Theorem spec_accepts_sound : forall l, spec_accepts l = true -> gE l.
+Proof.
+  intros l. unfold spec_accepts. pose proof (sp_sound (spec_fuel l) ME l) as H.
+  destruct (sp (spec_fuel l) ME l) as [[|? ?]|]; try discriminate.
+  intros _. apply R_nil, H.
+Qed.
+
+(* ---- the parser is stricter than the token-level grammar: arity, unknown
+   names, the position of "&" arguments, slice step 0 and the inner validity
+   of literals are reported by the parser under their own error categories ---- *)
+Definition toks_of (s : bytes) : list token :=
+  flat_map (fun i => match i with
+                     | ITok t => if is (ttyp t) TEnd then [] else [t]
+                     | _ => []
+                     end) (lex_all s).
+
+From Coq Require Import String.
+Local Open Scope string_scope.
+
+Example stricter_arity :
+  parse (bs "abs()") = Err (EInvalidFunctionCall (bs "abs")) /\ gE (toks_of (bs "abs()")).
+Proof. split; [vm_compute; reflexivity|apply spec_accepts_sound; vm_compute; reflexivity]. Qed.
+Example stricter_unknown :
+  parse (bs "foo(a)") = Err (EUnknownFunction (bs "foo")) /\ gE (toks_of (bs "foo(a)")).
+Proof. split; [vm_compute; reflexivity|apply spec_accepts_sound; vm_compute; reflexivity]. Qed.
+Example stricter_expref :
+  parse (bs "abs(&a)") = Err (EUnexpectedToken (bs "&")) /\ gE (toks_of (bs "abs(&a)")).
+Proof. split; [vm_compute; reflexivity|apply spec_accepts_sound; vm_compute; reflexivity]. Qed.
+Example stricter_step :
+  parse (bs "a[0:1:0]") = Err EInvalidSliceStep /\ gE (toks_of (bs "a[0:1:0]")).
+Proof. split; [vm_compute; reflexivity|apply spec_accepts_sound; vm_compute; reflexivity]. Qed.
+Example stricter_literal :
+  parse (bs "`x`") = Err (EInvalidJSONLiteral (bs "`x`")) /\ gE (toks_of (bs "`x`")).
+Proof. split; [vm_compute; reflexivity|apply spec_accepts_sound; vm_compute; reflexivity]. Qed.
+
+Print Assumptions spec_accepts_sound.
 Print Assumptions compile_sound.
+Print Assumptions parser_sound.
